@@ -149,6 +149,27 @@ CHECKS = {
              "inputs, extreme raw log-variances, data-set and batch sizes.",
         ref="DESIGN.md §5 C17",
     ),
+    "C16": dict(
+        technique="runtime monitoring: ask/tell loop through the real optimiser "
+                  "functions with a reference ledger of every evaluated candidate; "
+                  "invariants asserted after every tell / update; round-trip "
+                  "identity oracle; CEM elite-set oracle accepting any valid set "
+                  "under ties; in-loop best-fitness vs environment log",
+        text="Exploration over dimensions, population sizes, fitness sequences "
+             "(ties, non-finite, scale), both covariance updates, architectures, "
+             "CEM bounds / means on the boundary / variances.",
+        ref="DESIGN.md §5 C16",
+    ),
+    "C19": dict(
+        technique="runtime monitoring: save-at-every-prefix differential oracle - "
+                  "original and reloaded object driven by the same continuation "
+                  "and compared bitwise after every operation (state, sampled "
+                  "batches with equally seeded generators, one optimiser step)",
+        text="Exploration over buffer classes x reachable states x save points x "
+             "continuations, and module types x save paths (pickle helper, Orbax "
+             "checkpoint written by the checkpointing logger).",
+        ref="DESIGN.md §5 C19",
+    ),
 }
 
 NOT_YET = {}
